@@ -15,8 +15,8 @@ import vlib
 from vlib import cfg, MV
 
 MANIFEST = dict(
-    technique='TLA+ closed models Demux (UDP) and DemuxTcp (listeners + active opens): P-spec Target = I-spec four-step lookup, TLC exhaustive; every graph transition replayed on a real stack via the sockets API and packet injection, observed traces validated by TLC against the P-spec TraceSock (TCP: reset iff no socket, final ACK for the SYN-ACK of an active open, SYN-ACK for the first SYN to a listener); registrations racing deliveries: concurrent histories validated for linearizability by TLC against TraceDemuxLin',
-    text='TLC checks for every reachable population of UDP sockets (bound to wildcard/specific addresses, connected) and every inbound 4-tuple that the registry lookup returns exactly the most specific matching socket or none. Every transition of that graph is executed on a real stack: after each injected datagram every open socket is drained and TLC decides from the trace that exactly the P-spec target received exactly that payload and nobody else did. The same for TCP sockets (DemuxTcp: bind, listen, active open, close next to each other on one port; injected SYN / SYN-ACK). Seeded scenarios add TCP listeners (SYN to listener vs no socket: one RST), TCP connections with colliding second sockets, unassigned / removed / promiscuous destination addresses and IPv6. Concurrent histories (UDP bind / connect / close lifecycles, a TCP listener lifecycle and injectors racing on one stack) are recorded as call/return events and TLC searches a linearization in which every datagram went to the most specific socket registered at that instant.',
+    technique='TLA+ closed models Demux (UDP), DemuxTcp (listeners + active opens) and DemuxPassive (listener queue, handler goroutines, registration / failed-registration close by id; its early-flag variant must violate): P-spec Target = I-spec four-step lookup, TLC exhaustive; every graph transition replayed on a real stack via the sockets API and packet injection, observed traces validated by TLC against the P-spec TraceSock (TCP: reset iff no socket, final ACK for the SYN-ACK of an active open, SYN-ACK for the first SYN to a listener); registrations racing deliveries: concurrent histories validated for linearizability by TLC against TraceDemuxLin',
+    text='TLC checks for every reachable population of UDP sockets (bound to wildcard/specific addresses, connected) and every inbound 4-tuple that the registry lookup returns exactly the most specific matching socket or none. Every transition of that graph is executed on a real stack: after each injected datagram every open socket is drained and TLC decides from the trace that exactly the P-spec target received exactly that payload and nobody else did. The same for TCP sockets (DemuxTcp: bind, listen, active open, close next to each other on one port; injected SYN / SYN-ACK). Seeded scenarios add TCP listeners (SYN to listener vs no socket: one RST), passive opens (SYN bursts, the completing ACK|PSH, Accept must return the connection and the connection must acknowledge data sent afterwards), TCP connections with colliding second sockets, unassigned / removed / promiscuous destination addresses and IPv6. Concurrent histories (UDP bind / connect / close lifecycles, a TCP listener lifecycle and injectors racing on one stack) are recorded as call/return events and TLC searches a linearization in which every datagram went to the most specific socket registered at that instant.',
     design='5 C09',
     note='Constants of the exhaustive graph: 2 (quick) / 3 (thorough) sockets, 2 local addresses + wildcard, 2 ports + ephemeral, 2 remotes. DemuxTcp: 2 sockets, 1 port. Established TCP connections are only modelled as far as the demultiplexer is concerned (lingering and half-open connections are treated as "anything may answer"). The racing histories sample schedules (seeded perturbation), they do not enumerate them, and use two-step linearization points (claim/activate, find/enqueue) because the implementation is not atomic there. NIC-bound sockets and multicast are not explored. Known finding F29 (two active opens on one 4-tuple) is replayed on every run. The removed-address half is asserted only when no socket holds a route to the address.')
 
@@ -316,6 +316,17 @@ def run(ctx):
     rt = ctx.tlc('DemuxTcp', ct, SPEC, name='DemuxTcp', dump_dot=True, must_pass=True, coverage=False, timeout=1800)
     script_t, stats_t = vlib.graph_script(ctx, rt)
     ctx.extra['tcp_graph'] = stats_t
+    # ---- passive opens (DemuxPassive: listener queue, handler goroutines, register / failed-registration close by id): exhaustive;
+    #      the variant that marks the endpoint registered before registering must violate LiveReachable (the model keeps its teeth:
+    #      its counterexample - a SYN and its retransmission both queued at the listener - is what the passive-open family injects)
+    pc = dict(Eps=MV('{0, 1, 2, 3}') if ctx.thorough() else MV('{0, 1, 2}'), Tuples=MV('{1, 2}'), MaxQ=3 if ctx.thorough() else 2, FlagEarly=False)
+    rp = ctx.tlc('DemuxPassive', cfg(constants=pc, invariants=['OneLivePerTuple', 'LiveReachable', 'OneRegPerId']), SPEC, name='DemuxPassive',
+                 must_pass=True, timeout=1800)
+    pc['FlagEarly'] = True
+    rpe = ctx.tlc('DemuxPassive', cfg(constants=pc, invariants=['LiveReachable']), SPEC, name='DemuxPassive-early-flag', count=False, timeout=1800)
+    ctx.extra['passive_model'] = dict(distinct_states=rp.distinct, early_flag_variant_violates=(not rpe.ok))
+    if rpe.ok:
+        raise vlib.Inconclusive('DemuxPassive with FlagEarly=TRUE does not violate LiveReachable: the model lost its teeth')
     tpaths = list(script_t['paths'])
     if not ctx.thorough():
         # quick: a sample of the edge cover, preferring paths with a socket life cycle in them (a close followed by another
